@@ -1,0 +1,577 @@
+// Verification hooks (cargo feature `verif`, off by default).
+//
+// Nothing in this file is compiled unless the crate is built with
+// `--features verif`. The hooks only observe: two dump modes that expose the
+// token stream and the syntax tree produced by the real lexer and parser, and
+// an append-only event log of what the evaluator did, which is only written
+// when the environment variable `SEED_VERIF_TRACE` names a file.
+
+use std::env;
+use std::error::Error as StdError;
+use std::fs;
+use std::fs::File;
+use std::fs::OpenOptions;
+use std::io::Write;
+use std::panic;
+use std::sync::Arc;
+use std::sync::Mutex;
+use std::sync::OnceLock;
+
+use lalrpop_util::ParseError;
+
+use crate::ast::*;
+use crate::eval::error::Error as EvalError;
+use crate::eval::value::Value;
+use crate::eval::Escape;
+use crate::lexer::LexError;
+use crate::lexer::Lexer;
+use crate::lexer::Token;
+use crate::parser::ProgParser;
+
+// `dump_mode` returns `true` if the process was started in one of the dump
+// modes (and has then done all its work).
+pub fn dump_mode() -> bool {
+    let args: Vec<String> = env::args().collect();
+    if args.len() != 4 {
+        return false;
+    }
+
+    let f: fn(&str) -> String =
+        match args[1].as_str() {
+            "--verif-tokens" => dump_tokens,
+            "--verif-ast" => dump_ast,
+            _ => return false,
+        };
+
+    panic::set_hook(Box::new(|_| {}));
+
+    let input = fs::read_to_string(&args[2])
+        .expect("couldn't read dump input");
+    let mut out = String::new();
+    for line in input.lines() {
+        let rendered =
+            match unhex(line) {
+                Some(bytes) => {
+                    match String::from_utf8(bytes) {
+                        Ok(src) => {
+                            let r = panic::catch_unwind(|| f(&src));
+                            match r {
+                                Ok(s) => s,
+                                Err(e) => {
+                                    let msg =
+                                        if let Some(s) = e.downcast_ref::<String>() {
+                                            s.clone()
+                                        } else if let Some(s) = e.downcast_ref::<&str>() {
+                                            (*s).to_string()
+                                        } else {
+                                            "?".to_string()
+                                        };
+
+                                    format!("panic|{}", hex(msg.as_bytes()))
+                                },
+                            }
+                        },
+                        Err(_) => "nonutf8".to_string(),
+                    }
+                },
+                None => "badhex".to_string(),
+            };
+        out += &rendered;
+        out += "\n";
+    }
+    fs::write(&args[3], out)
+        .expect("couldn't write dump output");
+
+    true
+}
+
+fn hex(bytes: &[u8]) -> String {
+    let mut s = String::with_capacity(bytes.len() * 2);
+    for b in bytes {
+        s += &format!("{b:02x}");
+    }
+
+    s
+}
+
+fn unhex(s: &str) -> Option<Vec<u8>> {
+    let cs = s.trim().as_bytes();
+    if cs.len() % 2 != 0 {
+        return None;
+    }
+    let mut out = Vec::with_capacity(cs.len() / 2);
+    for pair in cs.chunks(2) {
+        let p = std::str::from_utf8(pair).ok()?;
+        out.push(u8::from_str_radix(p, 16).ok()?);
+    }
+
+    Some(out)
+}
+
+fn token_kind(t: &Token) -> String {
+    let d = format!("{t:?}");
+
+    match d.find('(') {
+        Some(i) => d[..i].to_string(),
+        None => d,
+    }
+}
+
+fn token_value(t: &Token) -> String {
+    match t {
+        Token::Ident(s) | Token::StrLiteral(s) => hex(s.as_bytes()),
+        Token::IntLiteral(n) => hex(format!("{n}").as_bytes()),
+        Token::InterpStrLiteral(s, slots) => {
+            let rendered_slots: Vec<String> =
+                slots
+                    .iter()
+                    .map(|(a, b)| format!("{a}-{b}"))
+                    .collect();
+
+            format!("{}/{}", hex(s.as_bytes()), rendered_slots.join(";"))
+        },
+        _ => String::new(),
+    }
+}
+
+fn lex_error(e: &LexError) -> String {
+    match e {
+        LexError::Unexpected((l, c), ch) =>
+            format!("Unexpected,{l},{c},{}", hex(ch.to_string().as_bytes())),
+        LexError::IntOverflow((l, c), s) =>
+            format!("IntOverflow,{l},{c},{}", hex(s.as_bytes())),
+        LexError::UnescapedDollar((l, c)) =>
+            format!("UnescapedDollar,{l},{c},"),
+        LexError::InvalidInterpolationStart((l, c), ch) =>
+            format!(
+                "InvalidInterpolationStart,{l},{c},{}",
+                hex(ch.to_string().as_bytes()),
+            ),
+        LexError::InvalidEscapeChar((l, c), ch) =>
+            format!(
+                "InvalidEscapeChar,{l},{c},{}",
+                hex(ch.to_string().as_bytes()),
+            ),
+        LexError::InvalidHexChar((l, c), ch) =>
+            format!(
+                "InvalidHexChar,{l},{c},{}",
+                hex(ch.to_string().as_bytes()),
+            ),
+    }
+}
+
+// Token dump: `ok|kind,value,start_line,start_col,end_line,end_col,index|...`
+// using the real `Lexer` iterator (including statement-end suppression). A
+// lexical error ends the record with `|!kind,line,col,char`; a scanner that
+// yields more tokens than the input has characters ends it with `|!stuck`.
+fn dump_tokens(src: &str) -> String {
+    let mut lexer = Lexer::new(src);
+    let mut out = String::from("ok");
+    let mut n = 0;
+    let limit = src.chars().count() + 2;
+    loop {
+        match lexer.next() {
+            None => break,
+            Some(Ok(((sl, sc), t, (el, ec)))) => {
+                out += &format!(
+                    "|{},{},{sl},{sc},{el},{ec},{}",
+                    token_kind(&t),
+                    token_value(&t),
+                    lexer.scanner.index,
+                );
+            },
+            Some(Err(e)) => {
+                out += &format!("|!{}", lex_error(&e));
+                break;
+            },
+        }
+        n += 1;
+        if n > limit {
+            out += "|!stuck";
+            break;
+        }
+    }
+
+    out
+}
+
+// AST dump: `ok|<s-expression>` where every node that stores a position is
+// written as `(Kind@line:col ...)`, or `err|kind|line|col|detail`.
+fn dump_ast(src: &str) -> String {
+    let lexer = Lexer::new(src);
+    match ProgParser::new().parse(lexer) {
+        Ok(Prog::Body{stmts}) => {
+            format!("ok|(Prog{})", sx_block(&stmts))
+        },
+        Err(e) => {
+            match e {
+                ParseError::InvalidToken{location: (l, c)} =>
+                    format!("err|InvalidToken|{l}|{c}|"),
+                ParseError::UnrecognizedEof{location: (l, c), ..} =>
+                    format!("err|UnrecognizedEof|{l}|{c}|"),
+                ParseError::UnrecognizedToken{token: ((l, c), t, _), ..} =>
+                    format!(
+                        "err|UnrecognizedToken|{l}|{c}|{},{}",
+                        token_kind(&t),
+                        token_value(&t),
+                    ),
+                ParseError::ExtraToken{token: ((l, c), t, _)} =>
+                    format!(
+                        "err|ExtraToken|{l}|{c}|{},{}",
+                        token_kind(&t),
+                        token_value(&t),
+                    ),
+                ParseError::User{error} =>
+                    format!("err|Lex|{}", lex_error(&error).replace(',', "|")),
+            }
+        },
+    }
+}
+
+fn sx_block(stmts: &Block) -> String {
+    let mut s = String::new();
+    for stmt in stmts {
+        s += " ";
+        s += &sx_stmt(stmt);
+    }
+
+    s
+}
+
+fn sx_stmt(stmt: &Stmt) -> String {
+    match stmt {
+        Stmt::Block{block} =>
+            format!("(Block{})", sx_block(block)),
+        Stmt::Expr{expr} =>
+            format!("(ExprStmt {})", sx_expr(expr)),
+        Stmt::Declare{lhs, rhs} =>
+            format!("(Declare {} {})", sx_expr(lhs), sx_expr(rhs)),
+        Stmt::Assign{lhs, rhs} =>
+            format!("(Assign {} {})", sx_expr(lhs), sx_expr(rhs)),
+        Stmt::OpAssign{lhs, op, op_loc: (l, c), rhs} =>
+            format!(
+                "(OpAssign@{l}:{c} {op:?} {} {})",
+                sx_expr(lhs),
+                sx_expr(rhs),
+            ),
+        Stmt::If{branches, else_stmts} => {
+            let mut s = String::from("(If");
+            for Branch{cond, stmts} in branches {
+                s += &format!(
+                    " (Branch {} (Body{}))",
+                    sx_expr(cond),
+                    sx_block(stmts),
+                );
+            }
+            if let Some(stmts) = else_stmts {
+                s += &format!(" (Else{})", sx_block(stmts));
+            }
+            s += ")";
+
+            s
+        },
+        Stmt::While{cond, stmts} =>
+            format!("(While {} (Body{}))", sx_expr(cond), sx_block(stmts)),
+        Stmt::For{lhs, iter, stmts} =>
+            format!(
+                "(For {} {} (Body{}))",
+                sx_expr(lhs),
+                sx_expr(iter),
+                sx_block(stmts),
+            ),
+        Stmt::Break{loc: (l, c)} =>
+            format!("(Break@{l}:{c})"),
+        Stmt::Continue{loc: (l, c)} =>
+            format!("(Continue@{l}:{c})"),
+        Stmt::Func{name: (name, (l, c)), args, collect_args, stmts} =>
+            format!(
+                "(FuncStmt@{l}:{c} {} (Params{}) {collect_args} (Body{}))",
+                hex(name.as_bytes()),
+                sx_exprs(args),
+                sx_block(stmts),
+            ),
+        Stmt::Return{loc: (l, c), expr} =>
+            format!("(Return@{l}:{c} {})", sx_expr(expr)),
+    }
+}
+
+fn sx_exprs(exprs: &[Expr]) -> String {
+    let mut s = String::new();
+    for e in exprs {
+        s += " ";
+        s += &sx_expr(e);
+    }
+
+    s
+}
+
+fn sx_items(items: &[ListItem]) -> String {
+    let mut s = String::new();
+    for ListItem{expr, is_spread} in items {
+        if *is_spread {
+            s += &format!(" (Spread {})", sx_expr(expr));
+        } else {
+            s += &format!(" {}", sx_expr(expr));
+        }
+    }
+
+    s
+}
+
+fn sx_opt(e: &Option<Box<Expr>>) -> String {
+    match e {
+        Some(e) => sx_expr(e),
+        None => "-".to_string(),
+    }
+}
+
+fn sx_expr(expr: &Expr) -> String {
+    let (raw, (l, c)) = expr;
+    match raw {
+        RawExpr::Null =>
+            format!("(Null@{l}:{c})"),
+        RawExpr::Bool{b} =>
+            format!("(Bool@{l}:{c} {b})"),
+        RawExpr::Int{n} =>
+            format!("(Int@{l}:{c} {n})"),
+        RawExpr::Str{s, interpolation_slots} => {
+            match interpolation_slots {
+                None =>
+                    format!("(Str@{l}:{c} {})", hex(s.as_bytes())),
+                Some(slots) => {
+                    let rendered_slots: Vec<String> =
+                        slots
+                            .iter()
+                            .map(|(a, b)| format!("{a}-{b}"))
+                            .collect();
+
+                    format!(
+                        "(IStr@{l}:{c} {} [{}])",
+                        hex(s.as_bytes()),
+                        rendered_slots.join(";"),
+                    )
+                },
+            }
+        },
+        RawExpr::Var{name} =>
+            format!("(Var@{l}:{c} {name})"),
+        RawExpr::BinaryOp{op, op_loc: (ol, oc), lhs, rhs} =>
+            format!(
+                "(Bin@{l}:{c} {op:?}@{ol}:{oc} {} {})",
+                sx_expr(lhs),
+                sx_expr(rhs),
+            ),
+        RawExpr::List{items, collect} =>
+            format!("(List@{l}:{c} {collect}{})", sx_items(items)),
+        RawExpr::Index{expr, location} =>
+            format!("(Index@{l}:{c} {} {})", sx_expr(expr), sx_expr(location)),
+        RawExpr::RangeIndex{expr, start, end} =>
+            format!(
+                "(RangeIndex@{l}:{c} {} {} {})",
+                sx_expr(expr),
+                sx_opt(start),
+                sx_opt(end),
+            ),
+        RawExpr::Range{start, end} =>
+            format!("(Range@{l}:{c} {} {})", sx_expr(start), sx_expr(end)),
+        RawExpr::Object{props} => {
+            let mut s = format!("(Object@{l}:{c}");
+            for prop in props {
+                match prop {
+                    PropItem::Pair{name, value} => {
+                        s += &format!(
+                            " (Pair {} {})",
+                            sx_expr(name),
+                            sx_expr(value),
+                        );
+                    },
+                    PropItem::Single{expr, is_spread, collect} => {
+                        s += &format!(
+                            " (Single {is_spread} {collect} {})",
+                            sx_expr(expr),
+                        );
+                    },
+                }
+            }
+            s += ")";
+
+            s
+        },
+        RawExpr::Prop{expr, name, type_prop} =>
+            format!("(Prop@{l}:{c} {type_prop} {name} {})", sx_expr(expr)),
+        RawExpr::Func{args, collect_args, stmts} =>
+            format!(
+                "(Func@{l}:{c} (Params{}) {collect_args} (Body{}))",
+                sx_exprs(args),
+                sx_block(stmts),
+            ),
+        RawExpr::Call{func, args} =>
+            format!("(Call@{l}:{c} {} (Args{}))", sx_expr(func), sx_items(args)),
+    }
+}
+
+// Event log.
+
+static TRACE: OnceLock<Option<Mutex<File>>> = OnceLock::new();
+
+fn trace_file() -> &'static Option<Mutex<File>> {
+    TRACE.get_or_init(|| {
+        let path = env::var("SEED_VERIF_TRACE").ok()?;
+        let f =
+            OpenOptions::new()
+                .create(true)
+                .append(true)
+                .open(path)
+                .ok()?;
+
+        Some(Mutex::new(f))
+    })
+}
+
+fn tracing() -> bool {
+    trace_file().is_some()
+}
+
+fn emit(line: &str) {
+    if let Some(m) = trace_file() {
+        if let Ok(mut f) = m.lock() {
+            let _ = f.write_all(format!("{line}\n").as_bytes());
+        }
+    }
+}
+
+fn escape_kind(e: &Escape) -> &'static str {
+    match e {
+        Escape::None => "none",
+        Escape::Break{..} => "break",
+        Escape::Continue{..} => "continue",
+        Escape::Return{..} => "return",
+    }
+}
+
+fn stmt_kind(s: &Stmt) -> &'static str {
+    match s {
+        Stmt::Block{..} => "block",
+        Stmt::Expr{..} => "expr",
+        Stmt::Declare{..} => "declare",
+        Stmt::Assign{..} => "assign",
+        Stmt::OpAssign{..} => "opassign",
+        Stmt::If{..} => "if",
+        Stmt::While{..} => "while",
+        Stmt::For{..} => "for",
+        Stmt::Break{..} => "break",
+        Stmt::Continue{..} => "continue",
+        Stmt::Func{..} => "func",
+        Stmt::Return{..} => "return",
+    }
+}
+
+pub fn ev_seq_enter() {
+    if tracing() {
+        emit("Q+");
+    }
+}
+
+pub fn ev_seq_exit(e: &Escape) {
+    if tracing() {
+        emit(&format!("Q- {}", escape_kind(e)));
+    }
+}
+
+pub fn ev_stmt_enter(s: &Stmt) {
+    if tracing() {
+        emit(&format!("S+ {}", stmt_kind(s)));
+    }
+}
+
+pub fn ev_stmt_exit(s: &Stmt, e: &Escape) {
+    if tracing() {
+        emit(&format!("S- {} {}", stmt_kind(s), escape_kind(e)));
+    }
+}
+
+pub fn ev_call_enter(name: &Option<String>) {
+    if tracing() {
+        let n =
+            match name {
+                Some(n) => n.as_str(),
+                None => "<unnamed>",
+            };
+        emit(&format!("C+ {n}"));
+    }
+}
+
+pub fn ev_call_exit(e: &Escape) {
+    if tracing() {
+        emit(&format!("C- {}", escape_kind(e)));
+    }
+}
+
+fn value_kind(v: &Value) -> &'static str {
+    match v {
+        Value::Null => "null",
+        Value::Bool(_) => "bool",
+        Value::Int(_) => "int",
+        Value::Str(_) => "string",
+        Value::List(_) => "list",
+        Value::Object(_) => "object",
+        Value::BuiltinFunc{..} => "builtin",
+        Value::Func(_) => "func",
+    }
+}
+
+pub fn ev_binop(op: &BinaryOp, lhs: &Value, rhs: &Value) {
+    if !tracing() {
+        return;
+    }
+
+    let same =
+        match (lhs, rhs) {
+            (Value::List(a), Value::List(b)) => Arc::ptr_eq(a, b),
+            (Value::Object(a), Value::Object(b)) => Arc::ptr_eq(a, b),
+            (Value::Func(a), Value::Func(b)) => Arc::ptr_eq(a, b),
+            _ => false,
+        };
+    let ints =
+        match (lhs, rhs) {
+            (Value::Int(a), Value::Int(b)) => format!(" {a} {b}"),
+            _ => String::new(),
+        };
+
+    emit(&format!(
+        "B {op:?} {} {} {}{ints}",
+        value_kind(lhs),
+        value_kind(rhs),
+        if same { "same" } else { "diff" },
+    ));
+}
+
+pub fn ev_hash_order<'a, I>(keys: I)
+where
+    I: Iterator<Item = &'a String>,
+{
+    if !tracing() {
+        return;
+    }
+
+    let rendered: Vec<String> = keys.map(|k| hex(k.as_bytes())).collect();
+    emit(&format!("K {}", rendered.join(",")));
+}
+
+pub fn ev_error_chain(e: &EvalError) {
+    if !tracing() {
+        return;
+    }
+
+    let mut names = vec![];
+    let mut cur: Option<&(dyn StdError + 'static)> = Some(e);
+    while let Some(err) = cur {
+        let d = format!("{err:?}");
+        let end =
+            d.find(|c: char| !c.is_ascii_alphanumeric())
+                .unwrap_or(d.len());
+        names.push(d[..end].to_string());
+        cur = err.source();
+    }
+    emit(&format!("E {}", names.join(">")));
+}
